@@ -212,13 +212,18 @@ REGISTRY["C11"] = {
                    "mixing task answers, matching / non-matching / wrong-kind / wrong-operation events (up to 8, more than any node inbox holds) and bursts of two "
                    "concurrent events. After every stimulus: quiescence; every ConsumeEvent call must have returned (parked at the fixpoint = blocks forever); the "
                    "new task requests must be exactly those of the listeners the model releases (each waiting token once per delivered event, nothing for "
-                   "non-matching or not-armed deliveries); completion iff the model is empty."),
+                   "non-matching or not-armed deliveries); completion iff the model is empty. Boundary catch events (attached to tasks that hold one or two tokens, re-activated hosts, "
+                   "repeated and racing events) are exercised by re-running the unrestricted C10 campaign as part of this check."),
     "level_note": EVENT_TRUST,
     "technique": "rapid property test over generated event/answer scripts, lock-step differential against the token-game model, stuck detection by goroutine snapshot",
     "rule": ("Distinct = descriptor (shape, catch definitions, script, perturbation seed). Non-trivial = >=2 events delivered of which at least one released a listener and at least one had no effect "
              "(non-matching or nothing armed), or a catch event on a branch that is never taken is present."),
     "tests": [
         {"name": "TestC11Delivery", "checks": {"quick": 150, "thorough": 5000}, "shards": {"quick": 16, "thorough": 16}, "gomaxprocs": [4, 2, 16, 1]},
+        # boundary catch events are catch events too: the C10 campaign that keeps several tokens in a host and repeated events in the domain
+        # (failures are attributed to findings C10-F1/F2/F3 only if the run agrees step by step with the model of those deviations)
+        {"name": "TestC10Boundary", "pkg": "props/c10", "label": "boundary-catch-events", "env": {"VERIF_UNRESTRICTED": "1"},
+         "checks": {"quick": 100, "thorough": 2000}, "shards": {"quick": 4, "thorough": 8}},
     ],
 }
 
